@@ -85,6 +85,7 @@ type fnExec struct {
 	sliceData map[ssa.Value]Sl
 	hookFired map[string]bool
 	prevStored SV
+	postsAssumedNoted bool
 	preAssumed bool
 	lemmasUsed map[string]bool
 	st        *State
@@ -190,6 +191,15 @@ func (fx *fnExec) oblige(name, kind string, goal Term, where, src string) {
 func (fx *fnExec) obligeG(g Term, name, kind string, goal Term, where, src string) {
 	if kind == "safety" && !fx.safetyChecks {
 		fx.assumeG(g, goal)
+		return
+	}
+	if (kind == "post" || kind == "panics_iff") && fx.ctr != nil && fx.ctr.Opts["posts"] == "assume" {
+		// the postconditions are an ASSUMED abstraction of this function (used at its call sites); only its hooks and
+		// safety obligations are checked on its body
+		if !fx.postsAssumedNoted {
+			fx.postsAssumedNoted = true
+			fx.assumedNotes = append(fx.assumedNotes, fx.name+": postconditions assumed (opt posts assume), not proved on the body")
+		}
 		return
 	}
 	if kind == "pre" && fx.ctr != nil && fx.ctr.Opts["pre"] == "assume" {
